@@ -13,7 +13,7 @@ CFG = dict(
                "metamorphic oracle on the real code (same command in a fresh session with the same options must give byte-identical output; the "
                "profile handed to each report must deep-equal the pristine decode; the loaded profile must be unchanged afterwards). Report "
                "generation itself is abstract in the model. Trusted: Coq kernel + vm_compute, translators gen-configtable/gen-commandtable, harness.",
-    translators=[("gen-configtable", "Gen/Gen_ConfigTable.v"), ("gen-commandtable", "Gen/Gen_CommandTable.v")],
+    translators=[("gen-configtable", "Gen/Gen_ConfigTable.v"), ("gen-commandtable", "Gen/Gen_CommandTable.v"), ("gen-unittable", "Gen/Gen_UnitTable.v")],
     rule="cases = (a) session: random valid profile (1-3 sample types, labels) x initial option state (default or random) x 2-12 lines (thorough: "
          "up to 32) mixing assignments (every option, valid/invalid values, spacing, //: comments, bare bool names, choices as variables, "
          "shortcuts ':' / sample types / total_ / mean_), commands (top text tree peek list traces tags raw dot comments callgrind proto topproto "
@@ -23,6 +23,9 @@ CFG = dict(
          "relative names and different contents, profiles naming them through a remote prefix; histories mix source_path= / trim_path= "
          "assignments with list / weblist commands (sessions) or with /source and /top requests (web; assignments via configure); here the fresh "
          "reference of the metamorphic oracle runs in a CHILD PROCESS (harness c10-ref) so that no process-wide cache is shared with it. "
+         "(e) SHAPES (deterministic, every quick run): 13 hand-made rare-but-valid profile shapes (unit families at both ends incl. GCU, negative / zero / "
+         "equal values, no mapping, empty name, numeric-tag units, duplicate sample types, inlining, special names, exact threshold, extreme "
+         "values, no samples, id gaps) x fixed session and web histories, every report compared with a fresh PROCESS; "
          "(d) END-TO-END: the same kinds of histories through driver.PProf with a real flag set (parseFlags -> option state, M_Flags), the Fetch "
          "plug-in + fetch pipeline, the real binutils object tool; deterministic in every quick run: 4 sessions and 3 request sequences on a "
          "profile of a real binary with disasm / weblist / /disasm / /source while intel_syntax changes (flag, assignment, URL); random: 40 "
